@@ -105,6 +105,16 @@ func vpHdrAgrees(h Header, out []byte) bool {
 // and after an encode/decode round trip.
 func VpC10(a []int) {
 	c := vpBuild(a)
+	if p, ok := c.pkt.(*CCFeedbackReport); ok {
+		single := false
+		for i := range p.ReportBlocks {
+			if len(p.ReportBlocks[i].MetricBlocks) == 1 {
+				single = true
+			}
+		}
+		// decoding loses a block's only metric block and then mis-frames the next block
+		vpKnown("KF-C10-ccfb-single-metric", "C10.decoded", single)
+	}
 	got := c.pkt.DestinationSSRC()
 	vpAssert("C10.constructed", vpU32sEq(got, c.dst))
 	out, err := c.pkt.Marshal()
